@@ -15,7 +15,7 @@
      converted back into an expression) and partial entity stores (Entities::partial) — covered by
      the implementation-level oracle of ./check C13 only. *)
 From Coq Require Import String.
-From Cedar Require Import Authz PE PEProofs PESound.
+From Cedar Require Import Authz PE PEProofs PESound PEReauth.
 Open Scope string_scope.
 
 (* ---- c13_peval_sound: for EVERY expression of the language (structural induction, one lemma
@@ -89,6 +89,41 @@ Theorem c13_definitely :
      exists p, In p ps /\ pid p = i /\ eval_policy_subst sg q es p = Ok false).
 Proof. exact definitely_final. Qed.
 Print Assumptions c13_definitely.
+
+
+(* ---- reauthorize, policy by policy ----
+   reauth_status sg q es st  is the status PartialResponse::reauthorize records for a policy whose
+   first-phase status was st: the policy  true && (true && (true && residual))  (resp. true / false)
+   evaluated by peval with the mapper sg on the completed request and store.  It never is a residual,
+   and the policy is satisfied under reauthorize iff it is satisfied from scratch — the decision and
+   the determining policies are functions of exactly these satisfied sets.
+   _partial: (a) stated per policy — the lifting to the policy LIST (items of reauthorize =
+   map over the first-phase items; decision / reason of pconcretize) is not proved in Coq, it is
+   compared on every run by ./check C13; (b) the completed request is taken as given:
+   concretize_request sg pq = embed_request q is not proved (Context::substitute re-evaluation);
+   (c) static policies (no slots). *)
+Theorem c13_reauthorize_partial :
+  forall sg q es pq pes p,
+    (forall sl v, sound_pres sg sl q es (peval_var pq v) (Var v)) ->
+    (forall sl, store_complete sg sl pes q es) ->
+    penv p = [] ->
+    wt_expr sg (pcondition p) = true ->
+    peval_policy no_mapping [] pq pes p <> SOut ->
+    match reauth_status sg q es (peval_policy no_mapping [] pq pes p) with
+    | SSat => eval_policy_subst sg q es p = Ok true
+    | SFalse | SErr _ => eval_policy_subst sg q es p <> Ok true
+    | SRes _ | SOut => False
+    end.
+Proof. exact reauth_policy_sound. Qed.
+Print Assumptions c13_reauthorize_partial.
+Print reauth_status.
+
+(* in concrete mode (concrete request and store, every unknown mapped) peval leaves no residual *)
+Theorem c13_reauthorize_no_residual :
+  forall mu sl q es e, wt_expr mu e = true ->
+    is_concrete (peval mu sl (embed_request q) (embed_entities es) e).
+Proof. exact peval_concrete. Qed.
+Print Assumptions c13_reauthorize_no_residual.
 
 (* ---- non-vacuity: a concrete partial request with an unknown principal ---- *)
 Definition ex_user : etype := [s2str "User"].
